@@ -37,7 +37,7 @@ DomainToAscii& hook() {
 
 void set_domain_to_ascii(DomainToAscii f) { hook() = std::move(f); }
 
-uint64_t edge_counts[32][32];
+thread_local uint64_t edge_counts[32][32];
 void reset_edge_counts() { std::memset(edge_counts, 0, sizeof edge_counts); }
 
 const char* state_name(State s) {
